@@ -128,6 +128,10 @@ fn hellos(r: &mut Rng, n_random: usize) -> Vec<Hello> {
     v.push(build_hello(r, Some("main.test"), &alpn2, 4000, 1216, 0x0303, 32, None, false));
     v.push(build_hello(r, Some("main.test"), &alpn2, 14000, 1216, 0x0303, 32, None, false));
     v.push(build_hello(r, Some("main.test"), &alpn2, 16000, 1216, 0x0303, 32, None, false)); // > 16 KiB: two records
+    // sizes around the read size of the TLS stack (4 KiB) and around the 16 KiB peek limit / record size
+    for pad in [3700usize, 3800, 3900, 4000, 7900, 8100, 14800, 14900, 15000, 15050, 15100] {
+        v.push(build_hello(r, Some("main.test"), &alpn2, pad, 0, 0x0303, 32, None, false));
+    }
     v.push(build_hello(r, None, &[], 0, 0, 0x0301, 0, None, false));
     v.push(build_hello(r, Some("main.test"), &alpn2, 0, 0, 0x0303, 32, Some(3), false)); // fragmented inside the handshake header
     v.push(build_hello(r, Some("main.test"), &alpn2, 0, 0, 0x0303, 32, Some(20), false)); // fragmented inside the random
